@@ -12,9 +12,9 @@ git apply $O/patch.diff || { echo "patch does not apply"; exit 2; }
 echo "== suite with patch"; go test -count=1 ./... 2>&1 | grep -v "^{" | tail -8
 cp $O/demo_test.go $W/$pkg/zz_demo_test.go
 echo "== demo with patch (expect FAIL)"; (cd $W/$pkg && timeout 300 go test -count=1 -run "$pat" . 2>&1 | grep -v "^{" | tail -5)
-git stash -q -- $(git diff --name-only) 
+git apply -R $O/patch.diff
 echo "== demo without patch (expect ok)"; (cd $W/$pkg && timeout 300 go test -count=1 -run "$pat" . 2>&1 | grep -v "^{" | tail -3)
-git stash pop -q; rm -f $W/$pkg/zz_demo_test.go
+git apply $O/patch.diff; rm -f $W/$pkg/zz_demo_test.go
 echo "== check $prop against /repo with the patch"
 git -C /repo apply $O/patch.diff && (cd /verif && timeout 1800 bin/check $prop quick 2>&1 | grep -E "^(check|VIOLATION|KNOWN)" | cut -c1-250; ls -t /verif/replays | head -1)
 git -C /repo checkout -- .
